@@ -212,6 +212,7 @@ var verifSF struct {
 	follower   bool // this caller may be a follower of another caller's flight
 	followerFn func(key string) (any, error)
 	strict     bool
+	other      bool // the call is the other caller's own flight
 }
 
 func verifStubSFDo(g *singleflight.Group, key string, fn func() (any, error)) (any, error, bool) {
@@ -223,6 +224,11 @@ func verifStubSFDo(g *singleflight.Group, key string, fn func() (any, error)) (a
 			v, err := verifSF.followerFn(key)
 			return v, err, true
 		}
+	}
+	if verifSF.other {
+		ghostLog("sf.other.led")
+		v, err := fn()
+		return v, err, false
 	}
 	if verifSF.strict {
 		// a caller that already led a flight and saw it fail must report that failure, not start over
@@ -258,7 +264,7 @@ var verifPendingSleep time.Duration
 
 func verifEnvReset() {
 	verifNowSec, verifNowNS = 0, 0
-	verifSF.keys, verifSF.follower, verifSF.followerFn, verifSF.strict = nil, false, nil, false
+	verifSF.keys, verifSF.follower, verifSF.followerFn, verifSF.strict, verifSF.other = nil, false, nil, false, false
 	verifSleeps = nil
 	verifLastTimeout = 0
 }
